@@ -10,7 +10,7 @@ import itertools
 
 from lib import common
 
-THEOREMS_TIED = ["C18_window_bound", "C18_refused_only_when_full", "C18_exempt"]
+THEOREMS_TIED = ["C18_window_bound", "C18_refused_only_when_full", "C18_exempt", "C18_specific_precedence"]
 
 INTERVAL_NAMES = {1: ["s", "second", "sec", "S"], 60: ["m", "minute", "min"], 3600: ["h", "hour", "hr"]}
 ADDRS4 = ["1.2.3.4", "5.6.7.8", "10.0.0.1"]
@@ -211,9 +211,7 @@ def oracle(report, options, parsed, ops, history, lim, clock):
                         justified = True
             if not justified:
                 cls = None
-                if v6_specific:
-                    cls = "rl-ipv6-specific"
-                else:
+                if True:
                     # explained by refused messages that consumed global budget?
                     g = p2["global"].get(c)
                     if g and c not in specific.get(a, {}):
@@ -235,16 +233,14 @@ def oracle(report, options, parsed, ops, history, lim, clock):
                     cnt = sum(1 for t in lst if now - t < interval)
                     if cnt > n:
                         cls = None
-                        if v6_specific or (":" in a and a in specific):
-                            cls = "rl-ipv6-specific"
-                        elif key.startswith("specific:") and any(
+                        if key.startswith("specific:") and any(
                                 cl <= now and cl > t0 for cl in cleanups for t0 in lst[:-1] if now - t0 < interval):
                             cls = "rl-cleanup-clears-specific"
                         report.property_failure(
                             "%d messages %s %s admitted within %d (limit %d) up to t=%d" % (cnt, a, c, interval, n, now),
                             replay, cls)
         # bookkeeping for the global-budget explanation: the message passes global if not refused by it
-        if c in p2["global"] and not (c in specific.get(a, {}) and "." in a):
+        if c in p2["global"] and not (c in specific.get(a, {})):
             if not limited:
                 seen_by_global.setdefault(c, []).append(now)
             else:
